@@ -863,6 +863,14 @@ def r9(rr, repo):
             polled_only = False
     rr.ob('a source that is out of the poller (its set is complete) is still read for out-of-band messages while the join waits for the others', not polled_only or not unreg, za.mod, unreg[0] if unreg else za.R_once,
           witness=f'{len(unreg)} unregister site(s) for complete sources; sockets are read only when the poller reports them: {polled_only}', key='complete-source-exit-unheard')
+    # ... and the announcement itself must arrive: a publisher announces its exit through the same PUB sockets as its frames, whose queue drops what does not fit; a consumer that is far behind
+    # (an ephemeral one in a long process() call, 500 frames back) loses the announcement and the CLOSE like any frame and waits for ever. It needs a channel that does not drop (or a repeat).
+    oob = [c for c in q.calls_in(za.S_cls, into_functions=True) if isinstance(c.func, ast.Attribute) and c.func.attr == 'send_multipart' and enclosing_function(c).name == 'send_oob']
+    rr.floor('sends of an out-of-band message by the publisher', len(oob), 1, za.mod, za.S_cls)
+    lossy = [c for c in oob if U(c.func.value).split('.')[-1] in ('pub', 'pubs')]
+    hwm = [c for c in q.calls_in(za.S_init) if isinstance(c.func, ast.Attribute) and c.func.attr == 'setsockopt' and c.args and U(c.args[0]).endswith('SNDHWM') and 'pub' in U(c.func.value)]
+    rr.ob("the publisher's exit announcement does not travel through a queue that drops when the consumer is behind", not (lossy and hwm), za.mod, lossy[0] if lossy else za.S_cls,
+          witness=f'send_oob publishes on the PUB sockets ({len(lossy)} site), whose queue is bounded by {U(hwm[0].args[1]) if hwm else "?"} and drops', key='exit-announcement-through-lossy-queue')
     # ... and while it waits for its OUTPUTS: the send wait of loop_once reads the request sockets only (MQ.send); the exit announcement of a source arrives on a SUB socket, which nothing reads
     # until the next recv() - a filter whose output nobody takes (an optional viewer, a required output that never comes up) never learns that its source is gone
     fmod_, lo = repo.find(f'{FILTER}::Filter.loop_once')
